@@ -268,6 +268,10 @@ pub struct Exec {
     cc_hist: [[Option<u32>; 128]; 5],
     bend_hist: Vec<(u16, u32)>,
     polls_since_edge: u32,
+    /// C05 edge latches, driven by the *observed* gate() and the decoded note-ons (the statement is about
+    /// changes of gate(), so it needs no <= 32-keys precondition)
+    lr: bool,
+    lf: bool,
 }
 
 impl Exec {
@@ -446,6 +450,8 @@ impl Engine for MidiEngine {
             cc_hist: [[None; 128]; 5],
             bend_hist: Vec::new(),
             polls_since_edge: 0,
+            lr: false,
+            lf: false,
         }
     }
 
@@ -462,7 +468,9 @@ impl Engine for MidiEngine {
                 if b < 0x80 && ex.m.dec.status == 0 {
                     ctx.probe(P_DATA_WITHOUT_STATUS);
                 }
+                let g0 = ex.rx.gate();
                 real!(ex.rx.parse(b));
+                let g1 = ex.rx.gate();
                 let rising_before = ex.m.rising;
                 let falling_before = ex.m.falling;
                 let completed = ex.m.dec.feed(b);
@@ -546,6 +554,18 @@ impl Engine for MidiEngine {
                     } else {
                         ctx.probe(P_MSG_ON_OTHER_CHANNEL);
                     }
+                }
+                if let Some(msg) = completed {
+                    if msg.status & 0x0F == ex.m.ch && msg.status >> 4 == 0x9 && msg.d2 > 0 {
+                        if ex.m.retrigger || (!g0 && g1) {
+                            ex.lr = true;
+                        }
+                        ex.lf = false;
+                    }
+                }
+                if g0 && !g1 {
+                    ex.lf = true;
+                    ex.lr = false;
                 }
                 ex.compare(ctx, completed, b);
                 // history for C18
@@ -650,12 +670,12 @@ impl Engine for MidiEngine {
                 let rising = matches!(ev, Ev::PollRising);
                 let got = if rising { real!(ex.rx.rising_gate()) } else { real!(ex.rx.falling_gate()) };
                 let gate = ex.rx.gate();
-                let want = if rising { ex.m.rising } else { ex.m.falling };
-                if !ex.m.cap_exceeded {
+                let want = if rising { ex.lr } else { ex.lf };
+                {
                     let held = ex.m.held.clone();
                     ctx.check(5, if rising { "rising_edge_latch" } else { "falling_edge_latch" }, got == want, || {
                         format!(
-                            "{}_gate() returned {} but the message/poll history says {} (gate={}, held={:?})",
+                            "{}_gate() returned {} but the history of gate() changes, note-ons and polls says {} (gate={}, held={:?})",
                             if rising { "rising" } else { "falling" },
                             got,
                             want,
@@ -675,8 +695,10 @@ impl Engine for MidiEngine {
                 // the getter is self-clearing on both sides; resynchronise the model with what was observed
                 if rising {
                     ex.m.rising = false;
+                    ex.lr = false;
                 } else {
                     ex.m.falling = false;
+                    ex.lf = false;
                 }
                 ex.polls_since_edge += 1;
                 ctx.transition(1 << 12 | (rising as u32) << 11 | (got as u32) << 10 | (ex.m.gate as u32) << 7);
@@ -717,6 +739,8 @@ impl Engine for MidiEngine {
                 ex.foreign_left = 0;
                 ex.need_status = false;
                 ex.twin_ok = true;
+                ex.lr = false;
+                ex.lf = false;
                 let o = outs(&ex.rx);
                 // C04: no key is down after power-on
                 ctx.check(6, "gate_low_after_power_on", !o.gate, || format!("fresh receiver outputs {:?}", o));
@@ -851,6 +875,7 @@ impl Engine for MidiEngine {
 struct Wire {
     running: u8, // sender's running status (0 = must send status)
     p_rt: f64,
+    p_rt_burst: f64,
     p_running: f64,
     faults: bool,
     p_fault: f64,
@@ -866,6 +891,15 @@ impl Wire {
         while self.p_rt > 0.0 && rng.chance(self.p_rt) {
             t.ctx.fault(F_RT_INSERT);
             t.push(Ev::Byte(rt_byte(rng), true));
+        }
+        // a long uninterrupted run of real-time bytes (a sequencer idling on MIDI clock / active sensing)
+        if self.p_rt_burst > 0.0 && rng.chance(self.p_rt_burst) {
+            let n = rng.near_pow2(false);
+            let b = if rng.chance(0.5) { 0xF8 } else { rt_byte(rng) };
+            for _ in 0..n {
+                t.ctx.fault(F_RT_INSERT);
+                t.push(Ev::Byte(if rng.chance(0.9) { b } else { rt_byte(rng) }, true));
+            }
         }
     }
 
@@ -1011,6 +1045,7 @@ fn random_run(rng: &mut Rng, prof: &Profile, sink: &mut Sink<MidiEngine>) {
     let mut wire = Wire {
         running: 0,
         p_rt: 0.0,
+        p_rt_burst: 0.0,
         p_running: *rng.pick(&[0.0, 0.5, 0.9, 1.0]),
         faults: false,
         p_fault: 0.0,
@@ -1018,32 +1053,34 @@ fn random_run(rng: &mut Rng, prof: &Profile, sink: &mut Sink<MidiEngine>) {
     };
     let mut p_foreign = 0.0;
     let mut p_poll = 0.15;
-    // weights: note_on, note_off(held), stray off, vel0 off, ANO, cc(routed), cc(any), bend, other msgs, mode, restart, random bytes
-    let mut w: [u32; 12] = [30, 24, 4, 6, 3, 4, 2, 3, 2, 4, 0, 0];
+    // weights: note_on, note_off(held), stray off, vel0 off, ANO, cc(routed), cc(any), bend, other msgs, mode, restart, random bytes,
+    // controller idioms (RPN/NRPN + data entry, bank select, channel-mode messages)
+    let mut w: [u32; 13] = [30, 24, 4, 6, 3, 4, 2, 3, 2, 4, 0, 0, 1];
     match focus {
         4 => {
             p_poll = 0.03;
-            w = [34, 26, 5, 8, 4, 0, 0, 0, 0, 6, 0, 0];
+            w = [34, 26, 5, 8, 4, 0, 0, 0, 0, 6, 0, 0, 0];
         }
         5 => {
             p_poll = *rng.pick(&[0.1, 0.3, 0.6, 0.9]);
-            w = [30, 26, 6, 8, 6, 0, 0, 0, 0, 6, 0, 0];
+            w = [30, 26, 6, 8, 6, 0, 0, 0, 0, 6, 0, 0, 0];
         }
         18 => {
             p_poll = 0.05;
-            w = [8, 6, 1, 2, 1, 30, 14, 22, 3, 2, 1, 0];
+            w = [8, 6, 1, 2, 1, 30, 14, 22, 3, 2, 1, 0, 8];
             p_foreign = *rng.pick(&[0.0, 0.05, 0.2]);
         }
         _ => {
             // C06 and chaos: everything, with wire faults
             wire.p_rt = *rng.pick(&[0.0, 0.02, 0.1, 0.3]);
+            wire.p_rt_burst = if rng.chance(0.04) { 0.05 } else { 0.0 };
             wire.faults = rng.chance(0.8);
             wire.p_fault = *rng.pick(&[0.02, 0.08, 0.25]);
             for e in wire.enabled.iter_mut() {
                 *e = rng.chance(0.6);
             }
             p_foreign = *rng.pick(&[0.0, 0.1, 0.3]);
-            w = [22, 18, 4, 5, 3, 8, 6, 6, 6, 3, 1, if rng.chance(0.3) { 6 } else { 0 }];
+            w = [22, 18, 4, 5, 3, 8, 6, 6, 6, 3, 1, if rng.chance(0.3) { 6 } else { 0 }, 4];
             if chaos {
                 w[0] = 60; // mash the keyboard: more than 32 outstanding notes
                 w[10] = 3;
@@ -1055,7 +1092,7 @@ fn random_run(rng: &mut Rng, prof: &Profile, sink: &mut Sink<MidiEngine>) {
     let mut chord_cap = *rng.pick(&[1usize, 2, 4, 8, 31, 32, 40]);
     // "mash" prologue: go straight to the edge of the 32-key list (29..33 keys down), then play around it
     if matches!(focus, 4 | 5 | 6 | 17) && rng.chance(0.08) {
-        let k = rng.range(29, if focus == 6 || chaos { 34 } else { 32 }) as usize;
+        let k = rng.range(29, if focus != 4 { 34 } else { 32 }) as usize;
         let ch = t.exec().listened();
         let base = rng.below(90) as u8;
         let mut keys: Vec<u8> = (0..k as u8).map(|i| base + i).collect();
@@ -1067,7 +1104,36 @@ fn random_run(rng: &mut Rng, prof: &Profile, sink: &mut Sink<MidiEngine>) {
             let v = gen_vel(rng);
             { let d__ = [n, v]; wire.send(rng, &mut t, 0x90 | ch, &d__) }
         }
-        chord_cap = if focus == 6 || chaos { 40 } else { 32 };
+        chord_cap = if focus != 4 { 40 } else { 32 };
+    }
+    // long-running block: a drone key held while a power-of-two-ish number of short notes is played over it
+    // (this is where 8-bit press counters, age stamps and the like wrap)
+    let mut drone: Option<u8> = None;
+    if matches!(focus, 4 | 5 | 6 | 17) && rng.chance(0.025) {
+        let ch = t.exec().listened();
+        let d = gen_note(rng);
+        drone = Some(d);
+        { let d__ = [d, gen_vel(rng)]; wire.send(rng, &mut t, 0x90 | ch, &d__) };
+        let n = rng.near_pow2(false) + rng.below(3);
+        for _ in 0..n {
+            if t.dead {
+                break;
+            }
+            let mut k = gen_note(rng);
+            if k == d {
+                k = (d + 1) & 0x7F;
+            }
+            { let d__ = [k, gen_vel(rng)]; wire.send(rng, &mut t, 0x90 | ch, &d__) };
+            if rng.chance(p_poll) {
+                t.push(if rng.chance(0.5) { Ev::PollRising } else { Ev::PollFalling });
+            }
+            if rng.chance(0.5) {
+                { let d__ = [k, 0]; wire.send(rng, &mut t, 0x80 | ch, &d__) };
+            } else {
+                { let d__ = [k, 0]; wire.send(rng, &mut t, 0x90 | ch, &d__) };
+            }
+        }
+        w[4] = 0; // no All Notes Off while the drone is held
     }
     for _ in 0..n_msgs {
         if t.dead {
@@ -1082,11 +1148,12 @@ fn random_run(rng: &mut Rng, prof: &Profile, sink: &mut Sink<MidiEngine>) {
             continue;
         }
         let ch = t.exec().listened();
-        let held: Vec<u8> = t.exec().held().to_vec();
+        let held_all: Vec<u8> = t.exec().held().to_vec();
+        let held: Vec<u8> = held_all.iter().copied().filter(|k| Some(*k) != drone).collect();
         let cap = t.exec().cap_exceeded();
         let mut act = rng.weighted(&w);
         // keep most runs inside the <= 32 outstanding precondition unless the run wants to exceed it
-        if act == 0 && held.len() >= chord_cap.min(if chaos || focus == 6 { 40 } else { 32 }) && !cap {
+        if act == 0 && held_all.len() >= chord_cap.min(if focus != 4 { 40 } else { 32 }) && !cap {
             act = 1;
         }
         if act == 1 && held.is_empty() {
@@ -1163,6 +1230,51 @@ fn random_run(rng: &mut Rng, prof: &Profile, sink: &mut Sink<MidiEngine>) {
                 let c = if chaos || rng.chance(0.3) { rng.below(256) as u8 } else { rng.below(16) as u8 };
                 t.push(Ev::Restart(c));
                 wire.running = 0;
+            }
+            12 => {
+                // controller idioms every synth meets: registered / non-registered parameter + data entry (pitch-bend
+                // sensitivity is RPN 0,0), bank select + program change, channel-mode messages 120..127
+                match rng.below(4) {
+                    0 | 1 => {
+                        let (sel_msb, sel_lsb) = if rng.chance(0.7) { (101u8, 100u8) } else { (99u8, 98u8) };
+                        let pm = *rng.pick(&[0u8, 0, 0, 1, 2, 127, 5]);
+                        let pl = *rng.pick(&[0u8, 0, 0, 1, 2, 127, 5]);
+                        let order = rng.chance(0.5);
+                        if order {
+                            { let d__ = [sel_msb, pm]; wire.send(rng, &mut t, 0xB0 | ch, &d__) };
+                            { let d__ = [sel_lsb, pl]; wire.send(rng, &mut t, 0xB0 | ch, &d__) };
+                        } else {
+                            { let d__ = [sel_lsb, pl]; wire.send(rng, &mut t, 0xB0 | ch, &d__) };
+                            { let d__ = [sel_msb, pm]; wire.send(rng, &mut t, 0xB0 | ch, &d__) };
+                        }
+                        let v = *rng.pick(&[0u8, 1, 2, 12, 24, 64, 127]);
+                        { let d__ = [6, v]; wire.send(rng, &mut t, 0xB0 | ch, &d__) };
+                        if rng.chance(0.5) {
+                            { let d__ = [38, rng.below(128) as u8]; wire.send(rng, &mut t, 0xB0 | ch, &d__) };
+                        }
+                        if rng.chance(0.3) {
+                            { let d__ = [*rng.pick(&[96u8, 97]), 0]; wire.send(rng, &mut t, 0xB0 | ch, &d__) };
+                        }
+                        if rng.chance(0.4) {
+                            { let d__ = [sel_msb, 127]; wire.send(rng, &mut t, 0xB0 | ch, &d__) };
+                            { let d__ = [sel_lsb, 127]; wire.send(rng, &mut t, 0xB0 | ch, &d__) };
+                        }
+                        // ... and then the controllers / the bend the parameter could have influenced
+                        let vv: u16 = *rng.pick(&[0u16, 16383, 8192, 12288, 4096]);
+                        { let d__ = [(vv & 0x7F) as u8, (vv >> 7) as u8]; wire.send(rng, &mut t, 0xE0 | ch, &d__) };
+                        let cc = *rng.pick(&[1u8, 7, 71, 74, 5]);
+                        { let d__ = [cc, *rng.pick(&[0u8, 127, 64])]; wire.send(rng, &mut t, 0xB0 | ch, &d__) };
+                    }
+                    2 => {
+                        { let d__ = [0, rng.below(128) as u8]; wire.send(rng, &mut t, 0xB0 | ch, &d__) };
+                        { let d__ = [32, rng.below(128) as u8]; wire.send(rng, &mut t, 0xB0 | ch, &d__) };
+                        { let d__ = [rng.below(128) as u8]; wire.send(rng, &mut t, 0xC0 | ch, &d__) };
+                    }
+                    _ => {
+                        let cc = *rng.pick(&[120u8, 122, 124, 125, 126, 127]);
+                        { let d__ = [cc, *rng.pick(&[0u8, 127, 1])]; wire.send(rng, &mut t, 0xB0 | ch, &d__) };
+                    }
+                }
             }
             _ => {
                 t.ctx.fault(F_RANDOM_BYTES);
